@@ -263,7 +263,7 @@ func c01Run(c *core.Ctx) {
 		n++
 		c.Add("states", 1)
 		inputs := c01Inputs
-		if pc.Family == "cond" || pc.Family == "concat" || pc.Family == "boolvalue" || pc.Family == "selfassign" {
+		if pc.Family == "cond" || pc.Family == "concat" || pc.Family == "boolvalue" || pc.Family == "selfassign" || pc.Family == "emptybody" {
 			inputs = []string{"10 9 abc\n", "a b\n"}
 		}
 		if pc.Family == "longrun" {
@@ -298,7 +298,7 @@ func init() {
 	core.Register(&core.Check{
 		ID:    "C01",
 		Level: "model_checking",
-		Rule: "bounded-exhaustive enumeration of a feature-product program grammar (families: lvalue kind x operation x rhs x form x scope; comparison/boolean conditions x 11 constructs; self-referencing assignments (v = v op e, v = e op v, v op= e where e changes v, over 8 lvalue kinds x 8 side effects, grouped with their parenthesised / expression-position spellings); long-run programs (1300 records: next/nextfile/exit/return/getline/close/delete inside functions and loops, >100 distinct dynamic regexes and formats: state that leaks per record or per call); values of !, && and || over 12 left x 14 right operands in 8 value contexts, each grouped with its ?: spelling; " +
+		Rule: "bounded-exhaustive enumeration of a feature-product program grammar (families: lvalue kind x operation x rhs x form x scope; comparison/boolean conditions x 11 constructs; statements whose bodies are all empty around 25 side-effecting / failing conditions in 12 spellings (if / if-else / ?: / for / while / do, grouped with a harmless-body spelling); self-referencing assignments (v = v op e, v = e op v, v op= e where e changes v, over 8 lvalue kinds x 8 side effects, grouped with their parenthesised / expression-position spellings); long-run programs (1300 records: next/nextfile/exit/return/getline/close/delete inside functions and loops, >100 distinct dynamic regexes and formats: state that leaks per record or per call); values of !, && and || over 12 left x 14 right operands in 8 value contexts, each grouped with its ?: spelling; " +
 			"concatenation chains in every grouping; user-call shapes; builtins; loop nests x break/continue placements; patterns/getline/IO forms; thorough: all ordered pairs of 50 statements) x inputs; " +
 			"state = one program, transition = one execution on the real compiler+VM; each execution is compared with the reference tree evaluator (traces_validated_against_impl) and with its metamorphic group; distinct = distinct observations",
 		Assumptions: []string{
